@@ -28,9 +28,9 @@ man = {
     "version": 1,
     "setup_cmd": "./setup.sh",
     "hooks": {
-        "guard": "NUSPACESIM_VERIF_DTYPE",
-        "enable": "no rebuild needed: the deductive checks read /repo/src on every run and need no hook; the only guarded hook (planned for C06) is switched on by exporting NUSPACESIM_VERIF_DTYPE=float64 in the check's own process",
-        "baseline_off_cmd": "cd /repo && env -u NUSPACESIM_VERIF_DTYPE -u NUSPACESIM_VERIF /venv/bin/python -m pytest -ra -q -p no:cacheprovider --timeout=900 --continue-on-collection-errors",
+        "guard": "NUSPACESIM_VERIF",
+        "enable": "no hook exists and none is needed: the repository carries no instrumentation commit (source_commits is empty); the checks read /repo/src on every run, contracts live in /verif/contracts, and the float64 run of the unchanged optical kernel (C06) is obtained from the harness side. The guard name is reserved (the checks export NUSPACESIM_VERIF=1 for themselves; nothing in /repo reads it)",
+        "baseline_off_cmd": "cd /repo && env -u NUSPACESIM_VERIF /venv/bin/python -m pytest -ra -q -p no:cacheprovider --timeout=900 --continue-on-collection-errors",
         "source_commits": HOOK_COMMITS,
         "add_only": True,
     },
